@@ -6,6 +6,9 @@ Micro-step model of the callback adapters of cocls (C18):
   the `await_result` and destroys its frame;
 * `make_promise` (future.h): heap / storage `future_with_cb` whose awaiter slot is pre-loaded with its own node; the
   resume function calls the callback and deletes the object;
+* `future_with_cb::operator<<` (future.h, `mkCb`): the same self-owning object attached to the future a source factory
+  returns: the pre-loaded registration is taken out, the future is re-created from the factory's result (`result_of`) and
+  the object subscribes to it like any awaiter (CAS); refused = already resolved: it resumes itself at once;
 * `discard` (future.h): heap awaiter owning the future; subscribes in its constructor or runs its finaliser itself;
 * `future_conv` (future_conv.h): member future + parked outer promise; the resume function reads the source (`*_fut`),
   runs the converter and resolves the outer promise (value, source exception, converter exception, dropped);
@@ -31,8 +34,15 @@ Re-use: `future_conv` and `call_fn_future_awaiter` objects serve one operation a
 node is the same every time, and its `_next` link (`nxt`) is the expected value of the next subscribing CAS.  `initWith`
 starts an operation with the link the previous one left behind, `runOps` chains operations.
 
-`Pre`: callbacks do not throw (documented contract).  The model keeps the as-is behaviour of a throwing callback for
-`callback_await` (`cbThrows`): the coroutine's catch block invokes it a second time.
+A callback of `callback_await` may throw (`cbThrows`): the helper coroutine remembers that the outcome has been
+delivered, its catch branch does not call the callback again and the exception is ignored like any result of a detached
+coroutine.  Starting the awaited operation may throw (`startThrew`): the `<<` adapters re-create their future resolved
+with the exception (`future::result_of`), `callback_await` constructs the awaitable inside its try block and hands the
+exception to the callback.  The callbacks of the other adapters are invoked from `noexcept` resume functions (a throw is
+`std::terminate`: not a behaviour of the adapter, not modelled).
+
+`astepAsIs` / `runAsIs` at the end keep the three behaviours the pinned code had instead (repaired in /repo by 963fa92,
+42a8746, edcba93); `Props/C18.lean` has a witness run for each.
 
 Ghost fields (never consulted by the control flow): `calls`, `saw`, `convIn`, `outerSets`, `allocs`, `frees`, `tok`,
 `wins`, `winner`.
@@ -66,7 +76,7 @@ def Outcome.obs : Outcome → Obs
   | Outcome.none => Obs.canceled
 
 inductive Adapter where
-  | cbAwait | mkProm | discard | conv | callFn | callAwt
+  | cbAwait | mkProm | discard | conv | callFn | callAwt | mkCb
   deriving DecidableEq, Repr, Inhabited
 
 /-- behaviour of the user's converter (`future_conv`): returns the converted value, throws, or (promise-taking shapes
@@ -146,12 +156,10 @@ structure Cfg where
   cvf : Option Nat → Nat := fun i => match i with | some x => x + 1000 | none => 7000
   srcVoid : Bool := false          -- the source is a future<void>: the converter gets no argument
   convReads : Bool := true         -- the converter glue reads the source (`*_fut`); false = pinned void-source shapes
-  cbThrows : Option Nat := none    -- contract violation: the user's callback throws this exception on its first invocation
+  cbThrows : Option Nat := none    -- (callback_await) the user's callback throws this exception once it has looked at its result
+  startThrew : Bool := false       -- `pre` is the exception thrown by the start of the operation itself (factory / constructor of the awaitable)
   inCoro : Bool := false           -- the registration is made from inside a running coroutine (active `coro_queue`)
   argsByRef : Bool := false        -- NOT the code: `callback_await_coro` taking `Args && ...` (frame holds references)
-
-/-- the documented contract of the adapters: callbacks do not throw -/
-def Pre (c : Cfg) : Prop := c.cbThrows = none
 
 structure State where
   owner : Bool
@@ -208,6 +216,7 @@ def Adapter.allocates : Adapter → Bool
   | Adapter.cbAwait => true
   | Adapter.mkProm => true
   | Adapter.discard => true
+  | Adapter.mkCb => true
   | _ => false
 
 /-- does the completion read the result (`value()`), which costs a `pending()` load when there is no value -/
@@ -285,13 +294,10 @@ def contReg (c : Cfg) (s : State) : State × List Ev :=
   | some _ => claimStep s 0
   | none => (setPc s 0 Pc.done, [Ev.fin 0])
 
-/-- what the callback of `callback_await_coro` is shown: the result; and, when it throws while holding a *value*, the
-coroutine's `catch (...)` calls it a second time with its own exception (a throw from inside the catch block escapes
-into `unhandled_exception`, which ignores it) -/
-def cbAwaitSees (c : Cfg) (p : Outcome) : List Obs :=
-  match c.cbThrows, p with
-  | some e, Outcome.val v => [Obs.val v, Obs.exc e]
-  | _, _ => [p.obs]
+/-- what the callback of `callback_await_coro` is shown: the operation's result, once — whether or not it throws
+(`cbThrows`): `delivered` is set before the call, so the `catch (...)` branch (which serves a failed operation) does not
+call it again; the callback's own exception ends in `unhandled_exception` of the detached coroutine, which ignores it -/
+def cbAwaitSees (_c : Cfg) (p : Outcome) : List Obs := [p.obs]
 
 /-- what the user's callbacks are shown when the completion runs with result `p` -/
 def sawOf (c : Cfg) (p : Outcome) : List Obs :=
@@ -300,6 +306,7 @@ def sawOf (c : Cfg) (p : Outcome) : List Obs :=
   | Adapter.mkProm => [p.obs]
   | Adapter.callFn => [p.obs]
   | Adapter.callAwt => [p.obs]
+  | Adapter.mkCb => [p.obs]
   | _ => []
 
 /-- the converter invocations of a completion (at most one) with their argument -/
@@ -379,13 +386,23 @@ def prepEvs (c : Cfg) (s : State) : List Ev :=
 
 /-- first step of the registrar: `prep`, then the first operation on a shared atomic.  `callback_await` asks `ready()`
 first, and so does the hand-driven `call_fn_awaiter`; `make_promise` pre-loads the slot with its own node and touches
-nothing shared; the others subscribe at once -/
+nothing shared; the others (`future_with_cb::operator<<` among them: the registration it took out of its own, not yet
+shared slot is private) subscribe at once.
+
+`callback_await` whose awaited operation throws at its start (`startThrew`; the operation is over, `slot = ready` and
+`payload` = that exception stand for its outcome, no future exists): the awaitable is constructed inside the helper's try
+block, so the catch branch runs the completion — callback with the exceptional state, then the frame is released — within
+this same segment, without any operation on a shared atomic. -/
 def startStep (c : Cfg) (s : State) : State × List Ev :=
   let evs := prepEvs c s
   match c.adapter with
   | Adapter.cbAwait =>
       (match s.slot with
-       | Slot.ready => (setPc (prep c s) 0 (Pc.comp (nloads c s.payload) Who.reg), evs ++ [Ev.opLoadSlot 0 Slot.ready])
+       | Slot.ready =>
+           if c.startThrew then
+             let r := compStep c (setPc (prep c s) 0 (Pc.comp 0 Who.reg)) 0 0 Who.reg
+             (r.1, evs ++ r.2)
+           else (setPc (prep c s) 0 (Pc.comp (nloads c s.payload) Who.reg), evs ++ [Ev.opLoadSlot 0 Slot.ready])
        | sl => (setPc (prep c s) 0 Pc.gCas, evs ++ [Ev.opLoadSlot 0 sl]))
   | Adapter.callAwt =>
       (match s.slot with
@@ -431,6 +448,80 @@ def run (c : Cfg) (s : State) (sched : List Nat) : State :=
   sched.foldl (fun s t => if enabled c s t then (astep c s t).1 else s) s
 
 def allDone (c : Cfg) (s : State) : Bool := (List.range c.n).all fun i => s.pc i == Pc.done
+
+/-! ## The pinned code (AS-IS): the three behaviours repaired in /repo by `fix:` commits
+
+`astepAsIs` is `astep` with the three segments below in place of the repaired ones; everything else is unchanged. -/
+
+/-- AS-IS, before /repo 963fa92 "callback_await called the callback a second time when it threw": the callback was invoked
+inside the try block that guards the `co_await`, so when it threw while holding a *value* the coroutine's `catch (...)` —
+meant for a failed operation — called it again, with an exceptional state carrying the callback's own exception (a throw
+from inside the catch block escapes into `unhandled_exception`, which ignores it) -/
+def cbAwaitSeesAsIs (c : Cfg) (p : Outcome) : List Obs :=
+  match c.cbThrows, p with
+  | some e, Outcome.val v => [Obs.val v, Obs.exc e]
+  | _, _ => [p.obs]
+
+def sawOfAsIs (c : Cfg) (p : Outcome) : List Obs :=
+  match c.adapter with
+  | Adapter.cbAwait => cbAwaitSeesAsIs c p
+  | _ => sawOf c p
+
+/-- AS-IS (before 963fa92): the final plain segment of a completion -/
+def completeAsIs (c : Cfg) (s : State) : State × List Ev :=
+  ({ s with calls := s.calls + 1, tok := Tok.used,
+            saw := s.saw ++ sawOfAsIs c s.payload,
+            convIn := s.convIn ++ convInOf c s.payload,
+            outer := if c.adapter = Adapter.conv then some (convRes c s.payload) else s.outer,
+            outerSets := s.outerSets + (if c.adapter = Adapter.conv then 1 else 0),
+            frees := s.frees + (if c.adapter.allocates then 1 else 0) },
+   (sawOfAsIs c s.payload).map Ev.cb ++ (convInOf c s.payload).map Ev.conv ++ (if c.adapter.allocates then [Ev.free] else []))
+
+def compStepAsIs (c : Cfg) (s : State) (t : Nat) (k : Nat) (w : Who) : State × List Ev :=
+  match k with
+  | k + 1 => (setPc s t (Pc.comp k w), [Ev.opLoadSlot t Slot.ready])
+  | 0 =>
+    let r := completeAsIs c s
+    let s1 := setPc r.1 t (afterPc w)
+    let r2 := match w with
+      | Who.reg => contReg c s1
+      | Who.res => retStep s1 t false
+      | Who.dt => retStep s1 t true
+    (r2.1, r.2 ++ r2.2)
+
+/-- AS-IS, before /repo 42a8746 "callback_await lost the completion when starting the awaited operation threw": the
+awaitable was constructed *outside* of the helper's try block.  The exception left the coroutine body, went to
+`unhandled_exception` of a coroutine without future (dropped), the frame was released at the final suspend point and the
+registration returned normally: the callback is never called and nobody holds the completion any more.  (With assertions
+enabled the half-constructed `future` additionally tripped "Destroy of pending future" while the exception propagated.) -/
+def startThrowsAsIs (c : Cfg) (s : State) : State × List Ev :=
+  let r := contReg c (setPc { prep c s with frees := s.frees + 1 } 0 Pc.gParked)
+  (r.1, prepEvs c s ++ [Ev.free] ++ r.2)
+
+/-- AS-IS, before /repo edcba93 "future_with_cb::operator<< lost the callback": the operator only forwarded to
+`future<T>::operator<<`, which destroys the future and constructs the factory's result over it — the registration the
+constructor had pre-loaded (`_awaiter = this`) was overwritten and nothing subscribed again.  The registrar touches no
+shared atomic and returns; whoever resolves the operation finds no awaiter: the callback is never called and the object
+never released.  (With assertions enabled "Destroy of pending future" fired at the first use.) -/
+def lshiftAsIs (c : Cfg) (s : State) : State × List Ev :=
+  let r := contReg c (setPc (prep c s) 0 Pc.gParked)
+  (r.1, prepEvs c s ++ r.2)
+
+def startStepAsIs (c : Cfg) (s : State) : State × List Ev :=
+  match c.adapter with
+  | Adapter.cbAwait => if c.startThrew ∧ s.slot = Slot.ready then startThrowsAsIs c s else startStep c s
+  | Adapter.mkCb => lshiftAsIs c s
+  | _ => startStep c s
+
+/-- one micro-step of agent `t` on the pinned code -/
+def astepAsIs (c : Cfg) (s : State) (t : Nat) : State × List Ev :=
+  match s.pc t with
+  | Pc.gStart => startStepAsIs c s
+  | Pc.comp k w => compStepAsIs c s t k w
+  | _ => astep c s t
+
+def runAsIs (c : Cfg) (s : State) (sched : List Nat) : State :=
+  sched.foldl (fun s t => if enabled c s t then (astepAsIs c s t).1 else s) s
 
 /-- one awaited operation on a helper object: its configuration and the schedule it runs under -/
 structure OpRun where
